@@ -103,6 +103,12 @@ theorem Rx.m_progressive : ∀ (r : Rx) {R : Type}, Progressive (r.m (R := R)) :
     split at h
     · exact ⟨_, (St.Ext.refl s).caps _, h⟩
     · cases h
+  | nahead r _ =>
+    intro R s k x h
+    simp only [Rx.m] at h
+    split at h
+    · cases h
+    · exact ⟨s, St.Ext.refl s, h⟩
   | behind cs =>
     intro R s k x h
     simp only [Rx.m] at h
